@@ -183,11 +183,82 @@ def _(self: SurveyK) -> XNode:
     may_raise(PyXFormError, when=True)
 
 
+# ---------------------------------------------------------------- secondary instances (C09): declared once per id
+
+Inst = Obj("InstanceInfo", type=str, context=Opt[str], name=str, src=Opt[str], instance=XNode)
+
+
+@spec
+def CollectedInstances(s: SurveyK) -> List[Inst]:
+    """All instance declarations gathered from the form, in document order, choice lists last (the nested
+    get_element_instances: pulldata / select-from-file / external / last-saved / static choice instances)."""
+    uninterpreted()
+
+
+@contract("Survey._generate_instances.<locals>.get_element_instances")
+def _() -> List[Inst]:
+    trusted("gathers one InstanceInfo per declaring site (C09 bounded e2e oracle: URIs and ids per source kind)")
+    ensures(result == CollectedInstances(self))
+    may_raise(PyXFormError, when=True)
+
+
+@contract("Survey._validate_external_instances")
+def _(instances: List[Inst]) -> None:
+    trusted("xml-external/csv-external names must be unique across the form (raises ValidationError)")
+    may_raise(ValidationError, when=True)
+
+
+@spec
+def NameSeen(L: List[Inst], i: int, s: str) -> bool:
+    """Some declaration among the first i has id s."""
+    if i <= 0:
+        return False
+    if L[i - 1].name == s:
+        return True
+    return NameSeen(L, i - 1, s)
+
+
+@spec
+def FirstNamed(L: List[Inst], i: int, s: str) -> Inst:
+    """The first declaration with id s among the first i (meaningful when NameSeen)."""
+    if i <= 1:
+        return L[0]
+    if NameSeen(L, i - 1, s):
+        return FirstNamed(L, i - 1, s)
+    return L[i - 1]
+
+
+@spec
+def FirstOccurrences(L: List[Inst], i: int) -> List[XNode]:
+    """C09: each instance id is declared exactly once — by its first declaration, in order."""
+    if i <= 0:
+        return []
+    if NameSeen(L, i - 1, L[i - 1].name):
+        return FirstOccurrences(L, i - 1)
+    return FirstOccurrences(L, i - 1) + [L[i - 1].instance]
+
+
 @contract("Survey._generate_instances")
 def _(self: SurveyK) -> List[XNode]:
-    trusted("secondary instances: C09 kernel")
-    ensures(result == InstanceNodes(self))
-    may_raise(PyXFormError, when=True)
+    properties("C09", "C17")
+    no_native("needs survey-element objects: exercised through the e2e oracles")
+    functional("InstanceNodes")
+    locals(seen=Dict[str, Inst])
+    may_raise(ValidationError, when=True)
+    L = CollectedInstances(self)
+    n = len(L)
+    # the same id with a different source URI is refused (never silently overwritten); the same id with the same URI is
+    # declared once
+    may_raise(PyXFormError, when=True)       # (gathering the declarations may itself refuse the form)
+    ensures(not exists(0, n, lambda j: NameSeen(L, j, L[j].name) and FirstNamed(L, j, L[j].name).src != L[j].src))
+    ensures(result == FirstOccurrences(L, n))
+
+    @loop(2, index="i", header="instances")   # loops 0 and 1 are inside the nested get_element_instances
+    def _():
+        invariant(forall_str(lambda s: (s in seen) == NameSeen(L, i, s)))
+        invariant(forall_str(lambda s: implies(s in seen, seen[s] == FirstNamed(L, i, s))))
+        invariant(forall(0, i, lambda j: not (NameSeen(L, j, L[j].name) and FirstNamed(L, j, L[j].name).src != L[j].src)))
+        invariant(_yield == FirstOccurrences(L, i))
 
 
 @contract("Survey.xml_actions")
